@@ -876,10 +876,10 @@ def gen_fail(rng, m, prof):
             c = ["E\t%s\t%s+\t%s-\t0\t5\t5\t10$\t*" % (n, first, second), "G\t%s\t%s+\t%s+\t5\t*" % (n, first, second)]
             return ["add", rng.choice(c)], "fail:placeholder-def-nonsegment"
         if k == "rename-invalid":
-            # a new identifier that is no identifier: refused by the field validation at vlevel 3
-            if prof.get("_vlevel", 1) < 3 or not ids:
+            # a new identifier that is no identifier: refused by the field validation (vlevel >= 1)
+            if prof.get("_vlevel", 1) < 1 or not ids:
                 continue
-            a = rng.choice(sorted(ids))
+            a = rng.choice(sorted(set(ids) | (m.mentioned() - {"*"})) if rng.chance(0.3) else sorted(ids))
             return ["rename", a, rng.choice(["a b", "x\ty", "", "a b c"])], "fail:rename-invalid"
         if k == "mention-nonsegment":
             # a line that uses, where a segment is expected, the identifier of a line that is not a segment
